@@ -156,6 +156,7 @@ Definition fix2_from_rows_nested : bool := false.    (* a nested-table field con
 Definition fix3_add_empty : bool := false.           (* add_fields accepts an empty, explicitly typed column *)
 Definition fix4_sort_strings : bool := false.        (* sort_by on StringArray / EncodedRaggedArray columns, stable *)
 Definition fix5_empty_dtype : bool := false.         (* an empty int / bool column keeps its declared dtype *)
+Definition fix6_flat_cells : bool := false.          (* a flat-encoded (strand) field rejects entries that are not one symbol *)
 Inductive fk := FB (k : kind) | FN (ks : list (list Z * kind)).
 Definition schema := list (list Z * fk).
 
@@ -314,7 +315,7 @@ Definition infer_dt (ds : list dt) : dt := match ds with [] => DF | d :: r => fo
 Definition declared_dt (k : kind) : dt := match k with KInt | KOpt => DI | KBool => DB | _ => DF end.
 Definition num_dt (fx5 : bool) (k : kind) (ds : list dt) : dt :=
   match ds with [] => if fx5 then declared_dt k else DF | _ => infer_dt ds end.
-Definition bcol_of_cells_gen (fx5 : bool) (k : kind) (l : list mb) : option bcol :=
+Definition bcol_of_cells_gen (fx5 fx6 : bool) (k : kind) (l : list mb) : option bcol :=
   match k with
   | KInt | KOpt | KFloat | KBool =>
       match all_MZ l with
@@ -327,7 +328,10 @@ Definition bcol_of_cells_gen (fx5 : bool) (k : kind) (l : list mb) : option bcol
             | None => None
             end
   | KStrand => match all_MS l with
-               | Some ss => match map_opt encode_strand (concat ss) with Some cs => Some (ColFlat cs) | None => None end
+               | Some ss =>
+                   (* pinned: the ragged result is ravelled whatever the entry lengths *)
+                   if fx6 && negb (forallb (fun s => Nat.eqb (length s) 1) ss) then None
+                   else match map_opt encode_strand (concat ss) with Some cs => Some (ColFlat cs) | None => None end
                | None => None
                end
   | KId => match all_MS l with Some ss => Some (pad_all ss) | None => None end
@@ -340,7 +344,7 @@ Definition bcol_of_cells_gen (fx5 : bool) (k : kind) (l : list mb) : option bcol
       | None => None
       end
   end.
-Definition bcol_of_cells := bcol_of_cells_gen fix5_empty_dtype.
+Definition bcol_of_cells := bcol_of_cells_gen fix5_empty_dtype fix6_flat_cells.
 Definition all_MB (l : list mcell) : option (list mb) := map_opt (fun c => match c with MB b => Some b | _ => None end) l.
 Definition all_MN (l : list mcell) : option (list (list mb)) := map_opt (fun c => match c with MN r => Some r | _ => None end) l.
 (* a column handed to the constructor: python list for a base field, Inner( *columns ) for a nested field *)
@@ -386,7 +390,7 @@ Definition empty_col (fx5 : bool) (k : kind) : option bcol :=
   match k with
   | KInt => Some (ColNum DI [])
   | KFloat => Some (ColNum DF [])
-  | _ => bcol_of_cells_gen fx5 k []
+  | _ => bcol_of_cells_gen fx5 false k []
   end.
 Definition m_empty (fx5 : bool) (sch : schema) : option ctable :=
   match
